@@ -106,7 +106,7 @@ func runC20(c c20Case, dir string) *Violation {
 	ts := httptest.NewUnstartedServer(http.HandlerFunc(proxy.Handler))
 	ts.Config.ErrorLog = newLogger(&errlog)
 	ts.Start()
-	defer ts.Close()
+	defer closeBounded(ts)
 	// request
 	pn := c.PayloadN
 	if pn < 0 { // -1: the request body is exactly 128 KiB; -2: one byte more
@@ -318,3 +318,14 @@ func TestC20_FN(t *testing.T) {
 }
 
 var _ = net.Dial
+
+// closeBounded closes a test server without waiting for ever on a handler that never returns (httptest's Close
+// blocks until every outstanding request is done - exactly what a "no answer" violation prevents).
+func closeBounded(ts *httptest.Server) {
+	done := make(chan struct{})
+	go func() { ts.CloseClientConnections(); ts.Close(); close(done) }()
+	select {
+	case <-done:
+	case <-time.After(2 * time.Second):
+	}
+}
